@@ -1,5 +1,5 @@
 import PolyVerif.Props.C03
-import PolyVerif.Lemmas.GbRoundTrip
+import PolyVerif.Lemmas.GbRoundTripG
 /-
 C03, write-then-read over the PARSER MODEL of property C01 (kept in a module of its own: it depends on
 C01's spec and lemma files).
@@ -13,18 +13,13 @@ Full statement (the property's clause):
 
     parse_build : WFSeq x → ∃ y, Genbank.parse (build x o) = .ok y ∧ y ≈ x          (WFSeq x := wfSeq x = true)
 
-Proved below as `parse_build_partial` under the stronger, decidable hypothesis `covered x`
-(Spec/GbRoundTrip.lean) = `wfSeq x` AND `GbLayout.wf (toRec x)` (the record, as C01's abstract record
-type `GbRec` expresses it, lies in C01's domain) AND no REFERENCE line is wrapped.  Since C01's
-widening (d64486e … 64dcf63) `GbRec` expresses every locus `Build` can write: any of poly's twelve
-molecule types or none, a topology or none, a division or none, a length string or none, a date
-or none; a reference without range; extra keywords / feature keys / qualifier keys of visible
-characters; quotation marks inside values.  What `covered` still adds to `wfSeq`:
-a date, when present, has a real month (C01 `isDateText`; `wfSeq` accepts any three capitals);
-a qualifier key holds no quotation mark; a cached location text is ONE INSDC-shaped expression
-(`isLocText`) and a structural location has no negative coordinate... (the complete list with reasons:
-`PARTIAL` in gen/c03.py); fewer than 10^8 bases; the REFERENCE line (number, two blanks, range) fits
-on one line; `Reference.Index` is the position (C01's `toRefs` numbers by position).  On the
+Proved below as `parse_build_partial` under the decidable hypothesis `covered x` (Spec/GbRoundTrip.lean) =
+the judge's round-trip domain `wfSeqJ` minus the two known findings (`wfLayoutG`: metadata may hold runs
+of blanks none of which falls on a wrap point), AND positional reference numbers, AND every REFERENCE
+line wrapped without loss (any length; only a break AT its own two blanks is excluded), AND
+`GbLayout.wf (toRec x)` (the record, as C01's abstract record type expresses it, lies in C01's domain:
+a date with a real month, no quotation mark in a qualifier key, a location text that is one INSDC-shaped
+expression, fewer than 10^8 bases).  The complete list with reasons: `PARTIAL` in gen/c03.py.  On the
 remaining records the clause rests on the correspondence check (the REAL `Parse(Build(x)) ≈ x` is judged on
 every case, and the parser MODEL is compared with the real parser on every written text). -/
 
@@ -37,12 +32,19 @@ same qualifier map.  Metadata of any length (wrapped by `WrapString` wherever it
 number of features / qualifiers / references / blocks, any sequence length < 10^8. -/
 theorem parse_build_partial (x : Sequence) (o : MapOrders) (h : covered x = true) :
     ∃ y, Genbank.parse (build x o) = .ok y ∧ approx x y = true :=
-  ⟨_, PolyVerif.Lemmas.GbRoundTrip.parse_build_covered x o h, PolyVerif.Lemmas.GbRoundTrip.approx_covered x h⟩
+  ⟨_, PolyVerif.Lemmas.GbRoundTripG.parse_build_covered x o h, PolyVerif.Lemmas.GbRoundTripG.approx_covered x h⟩
 
 /-- a sparse record: no length, molecule type, topology, division or date; a reference without range -/
 def sparseRecord : Sequence :=
   { metadata := { locus := { name := "x1".toList }, references := [{ index := "1".toList, authors := "A".toList }] },
     features := [{ type := "gene".toList }],
+    sequence := "acgt".toList }
+
+/-- a record with a run of blanks inside a line and a REFERENCE line of 100 columns (wrapped inside the range) -/
+def wideRecord : Sequence :=
+  { metadata := { locus := { name := "w1".toList, sequenceLength := "4".toList },
+                  definition := "two   blanks inside".toList,
+                  references := [{ range := "(bases 1 to 10; 20 to 30; 40 to 50; 60 to 70; 80 to 90; 100 to 110; 120 to 130)".toList, index := "1".toList }] },
     sequence := "acgt".toList }
 
 /-- a covered record: wrapped definition, a reference, an extra block, two features -/
@@ -69,6 +71,6 @@ example :
     covered { coveredRecord with
         metadata := { coveredRecord.metadata with locus := { coveredRecord.metadata.locus with moleculeType := "genomic DNA".toList } },
         features := [{ type := "CDS".toList, attributes := [("product".toList, "beta \"lactamase\" (bla)".toList), ("EC_number".toList, "3.5.2.6".toList)] }] } = true
-    ∧ covered sparseRecord = true := by decide +kernel
+    ∧ covered sparseRecord = true ∧ covered wideRecord = true := by decide +kernel
 
 end PolyVerif.Props.C03
